@@ -564,7 +564,22 @@ func (c *ctx) checkServerPatch(base *pb.ServerConfig, patch *pb.ServerConfig, fi
 		return x
 	}
 	for _, name := range []string{"portBindings", "mtu", "egress", "dns", "trafficPattern", "advancedSettings", "loggingLevel"} {
-		if !cmp(name, sel(before, name), sel(after, name), set[name], sel(pst, name)) {
+		want := sel(pst, name)
+		if name == "advancedSettings" && set[name] {
+			// a patch changes only what it sets: members of advancedSettings the patch does not name keep their value
+			m := &pb.ServerConfig{}
+			if before.AdvancedSettings != nil {
+				m.AdvancedSettings = proto.Clone(before.AdvancedSettings).(*pb.ServerAdvancedSettings)
+			}
+			if pst.AdvancedSettings != nil {
+				if m.AdvancedSettings == nil {
+					m.AdvancedSettings = &pb.ServerAdvancedSettings{}
+				}
+				proto.Merge(m.AdvancedSettings, pst.AdvancedSettings)
+			}
+			want = m
+		}
+		if !cmp(name, sel(before, name), sel(after, name), set[name], want) {
 			return false
 		}
 	}
@@ -688,6 +703,9 @@ func units(tier string) []runner.Unit {
 				dst.TrafficPattern = src.TrafficPattern
 			case "advancedSettings":
 				dst.AdvancedSettings = src.AdvancedSettings
+				if k == 2 {
+					dst.AdvancedSettings = &pb.ServerAdvancedSettings{UserHintIsMandatory: proto.Bool(true)} // one member only
+				}
 			case "loggingLevel":
 				dst.LoggingLevel = pb.LoggingLevel_TRACE.Enum()
 			case "users":
